@@ -95,4 +95,16 @@ TEXT = {
     level_text="Generated misbehaviour scripts with 0..n calls pending; liveness is tested as 'returns within 10 s'; crash-freedom by surviving the script (the driver turns a dead child into a replayable violation).",
     level_note="Trusted: memconn fault injection, refwire. Both 'ignore' and 'give up on the session' are accepted reactions to a stray or malformed frame.",
  ),
+ "C09": dict(
+    technique="property-based differential testing (rapid): every Session method called through CSession/ServeConn/SSession against a recording session, arguments and results compared both ways; forced msize; concurrent callers with marker-derived results; race detector",
+    design_ref="DESIGN.md section 4, C09",
+    level_text="Generated argument/result values with boundary bias and a generated negotiated msize; the oracle is equality at both ends modulo the documented wire limits only.",
+    level_note="Trusted: recording session, msize-forcing connection wrapper. The D14 wedge (>=5 concurrent callers over a zero-buffer connection) is a listed known finding, excluded by construction and probed separately.",
+ ),
+ "C10": dict(
+    technique="property-based testing (rapid) of both ends of version negotiation against scripted peers, followed by maximal-size traffic in both directions",
+    design_ref="DESIGN.md section 4, C10",
+    level_text="Generated proposals/answers over the whole 32-bit range with boundary density; after the handshake the harness sends and provokes frames of exactly the agreed size and one byte more.",
+    level_note="Trusted: refwire, scripted handler/peer.",
+ ),
 }
